@@ -1,6 +1,7 @@
 (* C12 - Setters and accessors obey last-write-wins and keep derived flags in step. *)
 From MQ Require Import Model.Codec Model.Api Model.Stream Spec.Fields Proofs.BytesP Proofs.SetterP Proofs.StreamP
-     Proofs.RoundP Proofs.DomP Properties.C01.
+     Proofs.RoundP Proofs.DomP Properties.C01 Model.AccIR Proofs.AnyStateP.
+From Coq Require Import String.
 From Coq Require Import List. Import ListNotations. Open Scope N_scope.
 
 (* Spec/Fields.v is a record of plain fields: every setter stores its
@@ -59,6 +60,49 @@ Proof.
   repeat split; auto using pf_dup, pf_retain, pf_qos.
 Qed.
 Print Assumptions C12_publish_bits.
+
+(* "After any sequence of setter calls on a packet": the packet need not come
+   from a constructor.  On ANY packet value - e.g. one read from the wire
+   whose flags and fields no sequence of setters produces together - one
+   setter call (a) leaves every accessor it does not name unchanged
+   (touched c: the accessor of its field; the flag-derived accessors for the
+   calls that toggle a flag byte), (b) makes the accessor of its field return
+   the argument, and (c) sets CONNECT's user-name / password flag exactly when
+   the value is non-empty, clean start, session present, DUP and RETAIN to the
+   value given - whatever the flag byte held before.  Accessors are named as
+   in the source (Model/AccIR.v, gen/SyncAcc.v). *)
+Theorem C12_any_state_frame : forall k c p name, applicable k c = true ->
+  In name (snapshot_names k) -> ~ In name (touched c) ->
+  eval_named name (step c p) = eval_named name p.
+Proof. exact setter_frame. Qed.
+Print Assumptions C12_any_state_frame.
+
+Theorem C12_any_state_reads_back : forall k c p acc v, applicable k c = true ->
+  reads_back c = Some (acc, v) ->
+  eval_named (tname k ++ "." ++ acc)%string (step c p) = v.
+Proof. exact setter_reads_back. Qed.
+Print Assumptions C12_any_state_reads_back.
+
+Theorem C12_any_state_flags : forall p,
+  (forall s, eval_named "Connect.HasFlag" (step (SetUsername s) p) =
+             ON (toggle (getN (M F_flags) p) UsernameFlag (nonempty s))
+             /\ has (toggle (getN (M F_flags) p) UsernameFlag (nonempty s)) UsernameFlag = nonempty s) /\
+  (forall s, eval_named "Connect.HasFlag" (step (SetPassword s) p) =
+             ON (toggle (getN (M F_flags) p) PasswordFlag (nonempty s))
+             /\ has (toggle (getN (M F_flags) p) PasswordFlag (nonempty s)) PasswordFlag = nonempty s) /\
+  (forall b, eval_named "Connect.CleanStart" (step (SetCleanStart b) p) = OB b) /\
+  (forall b, eval_named "ConnAck.SessionPresent" (step (SetSessionPresent b) p) = OB b) /\
+  (forall b, eval_named "Publish.Duplicate" (step (SetDuplicate b) p) = OB b) /\
+  (forall b, eval_named "Publish.Retain" (step (SetRetain b) p) = OB b).
+Proof. exact flags_follow_any_state. Qed.
+Print Assumptions C12_any_state_flags.
+
+Example C12_any_state_example :
+  (* a CONNECT as it may come off the wire: user-name flag set, user name empty *)
+  let p := setf (M F_flags) (VN 128) (ctor KConnect) in
+  eval_named "Connect.HasFlag" (step (SetUsername []) p) = ON 0
+  /\ eval_named "Connect.Username" (step (SetClientID [x63]) p) = eval_named "Connect.Username" p.
+Proof. vm_compute. split; reflexivity. Qed.
 
 (* non-vacuity: the history that the pinned tree got wrong, and one with a will *)
 Example C12_examples :
